@@ -1,0 +1,23 @@
+//go:build verif
+
+package exec
+
+import r "github.com/DemoHn/Zn/pkg/runtime"
+
+// VerifOnVM - when set, receives every VM created by Interpreter.Execute
+var VerifOnVM func(vm *r.VM)
+
+// VerifTick - when set, called once per evaluated statement
+var VerifTick func()
+
+func verifOnVM(vm *r.VM) {
+	if VerifOnVM != nil {
+		VerifOnVM(vm)
+	}
+}
+
+func verifTick() {
+	if VerifTick != nil {
+		VerifTick()
+	}
+}
